@@ -88,8 +88,8 @@ def shrink(case):
 IDX_INT = {"f": 1, "g": 2}
 
 
-NT_INT = {"S": 10, "A": 11, "T": 12, "B": 13}
-TERM_INT = {"a": 0, "b": 1}
+NT_INT = {"S": 0, "A": 11, "T": 12, "B": 13}      # 0: a falsy value, also as start variable
+TERM_INT = {"a": 1, "b": 2}
 
 
 def mk(r, int_idx=False):
@@ -188,7 +188,7 @@ def run(case, out):
                         out.fail("remove_useless_rules:verdict-changed", optim=optim, want=want, rules=rl)
                         break
     if case.get("with_intersection"):
-        fa_case = dict(case["fa"], symmode="cfg:binint") if case.get("int_idx") == "all" else case["fa"]
+        fa_case = dict(case["fa"], symmode="cfg:ig") if case.get("int_idx") == "all" else case["fa"]
         nfa = GF.ref_of(fa_case)
         wanti = M.product_is_empty(ref, nfa, start, tkey=lambda t: GF.ykey(fa_case, t))
         out.probe("intersection_empty" if wanti else "intersection_non_empty")
